@@ -7,7 +7,7 @@
 From Coq Require Import List NArith ZArith Bool String.
 From PMS Require Import Base.PyStr Base.Exn Model.Codec Model.TableTypes Gen.Tables Model.Validate
   Model.Oracles Model.Hex Model.Ota Model.Gateway Spec.SerialApi Proofs.GwInv
-  Spec.TreeMeaning Proofs.TreeProofs Proofs.TreeHistory Proofs.DirtyProofs.
+  Spec.TreeMeaning Proofs.TreeProofs Proofs.TreeHistory Proofs.DirtyProofs Proofs.DirtySim.
 Import ListNotations.
 Open Scope Z_scope.
 
@@ -74,7 +74,38 @@ Theorem C14_stop_loses_nothing :
     g_sensors (fst s') = load_tree (proj (g_sensors (fst s))).
 Proof. exact stop_loses_nothing. Qed.
 
+(* nothing but save_tick reads the flag: gateways equal but for the flag (deq) stay so under
+   every operation - a simulation through the dispatcher and all handlers *)
+Theorem C14_dirty_flag_is_write_only :
+  forall orc clock a b o, deq a b -> deq (step orc clock a o) (step orc clock b o).
+Proof. exact deq_step. Qed.
+
+(* C14.3 corollary: histories that differ only in the placement of periodic saves (equal after
+   removing the PSave ops) reach gateways equal but for the flag, and after stop + restart the
+   whole state - gateway and file - is identical *)
+Theorem C14_save_tick_positions_irrelevant :
+  forall orc clock v cf p1 p2, cfg_is v cf -> cf_persist cf = true ->
+    Forall pop_ok p1 -> Forall pop_ok p2 -> strip p1 = strip p2 ->
+    let s1 := prun orc clock (gw_init cf, None) p1 in
+    let s2 := prun orc clock (gw_init cf, None) p2 in
+    deq (fst s1) (fst s2) /\ pstep orc clock s1 PRestart = pstep orc clock s2 PRestart.
+Proof. exact save_tick_positions_irrelevant. Qed.
+
+Theorem C14_save_tick_positions_tree :
+  forall orc clock v cf p1 p2, cfg_is v cf -> cf_persist cf = true ->
+    Forall pop_ok p1 -> Forall pop_ok p2 -> strip p1 = strip p2 ->
+    let s1 := pstep orc clock (prun orc clock (gw_init cf, None) p1) PRestart in
+    let s2 := pstep orc clock (prun orc clock (gw_init cf, None) p2) PRestart in
+    proj (g_sensors (fst s1)) = proj (g_sensors (fst s2)) /\ snd s1 = snd s2.
+Proof. exact save_tick_positions_tree. Qed.
+
 (* non-vacuity *)
+Example C14_two_placements :
+  let p1 := [POp (Recv (s2p "1;255;0;0;3;x")); PSave; POp (Recv (s2p "1;255;3;0;0;77"))] in
+  let p2 := [PSave; POp (Recv (s2p "1;255;0;0;3;x")); POp (Recv (s2p "1;255;3;0;0;77")); PSave; PSave] in
+  strip p1 = strip p2 /\ p1 <> p2.
+Proof. split; [reflexivity|discriminate]. Qed.
+
 Example C14_cfg_exists : cfg_is V22 (mkConfig tab_22 true true true true) /\
                          cf_persist (mkConfig tab_22 true true true true) = true.
 Proof. repeat split. Qed.
@@ -105,3 +136,6 @@ Print Assumptions C14_send_job_frame.
 Print Assumptions C14_proj_load_tree.
 Print Assumptions C14_clean_implies_synced.
 Print Assumptions C14_stop_loses_nothing.
+Print Assumptions C14_dirty_flag_is_write_only.
+Print Assumptions C14_save_tick_positions_irrelevant.
+Print Assumptions C14_save_tick_positions_tree.
